@@ -197,7 +197,7 @@ def jobs(tier, seed):
     js.append({'harness': 'stamp', 'weight': 300, 'opts': {'max_paths': 30000},
                'cfg': {'kind': 'WFQ', 'rate': 8, 'table': {0: 2, 1: 3, 2: 1}, 'flows': [2, 0, 1, 1, 2, 1], 'sorts': 'int',
                        'ties_at_departures': True, 'split_gap': [3], 'burst': [0, 0, 0, 0, 1, 0], 'smax': 2, 'float_inexact': True,
-                       'sizes': {'0': 4, '1': 4, '2': 1}}})
+                       'sizes': {'0': 4, '1': 4, '2': 1, '4': 1}}})
     # equal stamps, different arrival instants, creation times in the opposite order
     for kind, t in (('VC', {0: 2, 1: 1}), ('VC', {0: 1, 1: 1}), ('WFQ', {0: 1, 1: 1})):
         js.append({'harness': 'stamp', 'weight': 10,
